@@ -201,6 +201,9 @@ func slots(variant string) []slot {
 			dl := dl
 			alts = append(alts, alt{fmt.Sprintf("C2%+dd", dl), set("C3", func(p *Person) { p.Birth = def.person("C2").Birth + dl })})
 		}
+		// relative to the FIRST child, so that with C2 = C1+100d all three are mutually close
+		alts = append(alts, alt{"C1+200d", set("C3", func(p *Person) { p.Birth = def.person("C1").Birth + 200 })},
+			alt{"C1+50d", set("C3", func(p *Person) { p.Birth = def.person("C1").Birth + 50 })})
 		out = append(out, slot{"C3.birth", alts})
 	}
 	if has("C4") {
